@@ -112,6 +112,7 @@ def parse_result(o):
 def run(ctx, log):
     # the same small programs at every size around the widths the implementation encodes things in (closed-form results)
     progcheck.run_scale(ctx, log, ['constants'])
+    progcheck.run_special_constants(ctx, log)
     rng = ctx.rng
     lat = int_lattice()
     extreme = sorted(lat, key=lambda z: -abs(z))[:14] + [0, 1, -1, 2, -2, 7, -7, 3]
